@@ -220,12 +220,15 @@ fn command_go(
 
     let mut time = None;
 
-    if wtime.is_some() && btime.is_some() && winc.is_some() && binc.is_some() {
-        let wtime = wtime.unwrap();
-        let btime = btime.unwrap();
-        let winc = winc.unwrap();
-        let binc = binc.unwrap();
+    // Every time parameter is optional in UCI (a GUI leaves the increments out when the
+    // game has none): the clock of the side to move is enough to bound the thinking time
+    let (clock, increment) = if game.player() == Player::White {
+        (wtime, winc)
+    } else {
+        (btime, binc)
+    };
 
+    if let Some(clock) = clock {
         // We decrease the time to make sure we never run out,
         // and we never think for longer than what is left on our clock
         let think_time = |clock: u64, increment: u64| {
@@ -235,11 +238,10 @@ fn command_go(
                 .min(clock)
         };
 
-        time = if game.player() == Player::White {
-            Some(Duration::from_millis(think_time(wtime, winc)))
-        } else {
-            Some(Duration::from_millis(think_time(btime, binc)))
-        };
+        time = Some(Duration::from_millis(think_time(
+            clock,
+            increment.unwrap_or(0),
+        )));
     }
 
     if let Some(move_time) = move_time {
